@@ -299,7 +299,12 @@ class NonBondEngine():
                 if gndx_pair not in exclusions:
                     other_atype = self.atypes[gndx_pair]
                     params = self.interaction_matrix[frozenset([current_atype, other_atype])]
-                    force += POTENTIAL_FUNC[potential](dist, point, self.positions[gndx_pair], params)
+                    # the distance is a minimum image distance, so the reference
+                    # position has to be the periodic image closest to point
+                    ref = self.positions[gndx_pair]
+                    box = np.asarray(self.boxsize, dtype=float)
+                    ref = ref + box * np.round((point - ref) / box)
+                    force += POTENTIAL_FUNC[potential](dist, point, ref, params)
         return force
 
     def compute_bending_probability(self, lp, point, mol_idx, node_b, node_c):
